@@ -21,10 +21,10 @@ Definition pc_edge (cfg : svcfg) (pc pc' : spc) : Prop :=
   | VCbSessRemove => pc' = VCbTmRemove
   | VCbTmRemove => pc' = VEnd
   | VDsFlag => pc' = VEnd ∨ pc' = (if sc_noclear cfg then VDsNoClear else VDsDestroy)
-  | VDsNoClear => pc' = VEnd ∨ pc' = VDsDestroy
-  | VDsDestroy => if sc_noclear cfg then pc' = VEnd else ∃ l, pc' = VDsTmRemove l
-  | VDsTmRemove todo => match todo with [] => pc' = VEnd | c :: rest => pc' = VDsUnlock c rest ∨ pc' = VDsTmRemove rest end
-  | VDsUnlock c rest => pc' = VDsTmRemove rest
+  | VDsNoClear => pc' = VEnd
+  | VDsDestroy => ∃ l, pc' = ds_next l
+  | VDsTmRemove todo => match todo with [] => pc' = VEnd | c :: rest => pc' = VDsUnlock c rest ∨ pc' = ds_next rest end
+  | VDsUnlock c rest => pc' = ds_next rest
   | VShFlag => pc' = VShNet
   | VShNet => pc' = VShTimers
   | VShTimers => pc' = VShMgr
@@ -188,13 +188,14 @@ Lemma thr_ext_set_pc_after cfg m X tid t pc : thr_ext cfg m (v_thr X) → m !! t
   pc_edge cfg (st_pc t) pc → thr_ext cfg m (v_thr (vset_pc tid pc X)).
 Proof. intros He Ht Ht' Hpc. eapply thr_ext_trans; [exact He|]. by eapply thr_ext_set_pc. Qed.
 
-Lemma spawn_all_thr cfg (l : list (str * list clock)) s : thr_bounded s →
-  thr_ext cfg (v_thr s) (v_thr (fold_left (λ s '(sid, _), spawn (SConnEnd sid) VDsFlag s) l s)) ∧
-  thr_bounded (fold_left (λ s '(sid, _), spawn (SConnEnd sid) VDsFlag s) l s) ∧
-  thr_keeps s (fold_left (λ s '(sid, _), spawn (SConnEnd sid) VDsFlag s) l s).
+Definition spawn_end (s : svstate) (sid : str) : svstate := vemit (SvConnEnd sid) (spawn (SConnEnd sid) VDsFlag s).
+Lemma spawn_all_thr cfg (l : list str) s : thr_bounded s →
+  thr_ext cfg (v_thr s) (v_thr (fold_left spawn_end l s)) ∧
+  thr_bounded (fold_left spawn_end l s) ∧
+  thr_keeps s (fold_left spawn_end l s).
 Proof.
   intros Hb. apply (fold_left_inv (λ s', thr_ext cfg (v_thr s) (v_thr s') ∧ thr_bounded s' ∧ thr_keeps s s')); [split_and!; [apply thr_ext_refl|done|by intros ??]|].
-  intros s' [sid ?] (He & Hb' & Hk) _.
+  intros s' sid (He & Hb' & Hk) _. unfold spawn_end.
   destruct (spawn_thr cfg (SConnEnd sid) s' Hb') as (H1 & H2 & H3). split_and!.
   - eapply thr_ext_trans; [exact He|]. exact H1.
   - exact H2.
@@ -328,12 +329,12 @@ Proof. intros Hx. unfold mgr_unlock. repeat case_match; simpl; try done. by appl
 
 Definition fresh_thread (t : sthread) : Prop := st_pc t = first_pc (st_op t) ∧ st_cancel t = None.
 
-Lemma spawn_all_thr_new (l : list (str * list clock)) s x t' : v_thr s !! x = None →
-  v_thr (fold_left (λ s '(sid, _), spawn (SConnEnd sid) VDsFlag s) l s) !! x = Some t' → fresh_thread t' ∧ client_op (st_op t') = false.
+Lemma spawn_all_thr_new (l : list str) s x t' : v_thr s !! x = None →
+  v_thr (fold_left spawn_end l s) !! x = Some t' → fresh_thread t' ∧ client_op (st_op t') = false.
 Proof.
   intros Hx. revert t'.
   apply (fold_left_inv (λ s', ∀ t', v_thr s' !! x = Some t' → fresh_thread t' ∧ client_op (st_op t') = false)); [intros t'; by rewrite Hx|].
-  intros s' [sid ?] IH _ t'. simpl. destruct (decide (x = v_next s')) as [->|Hne].
+  intros s' sid IH _ t'. simpl. destruct (decide (x = v_next s')) as [->|Hne].
   - rewrite lookup_insert. by intros [= <-].
   - rewrite lookup_insert_ne by done. apply IH.
 Qed.
